@@ -2,6 +2,9 @@
 #include <occa/core/device.hpp>
 #include <occa/internal/core/device.hpp>
 #include <occa/internal/core/streamTag.hpp>
+#ifdef LIBOCCA_OCCA_VERIF
+#include <occa/internal/verif.hpp>
+#endif
 
 namespace occa {
   streamTag::streamTag() :
@@ -41,6 +44,9 @@ namespace occa {
       return;
     }
     modeStreamTag->removeStreamTagRef(this);
+#ifdef LIBOCCA_OCCA_VERIF
+    verif::yield(verif::ptAfterRemoveStreamTagRef);
+#endif
     if (modeStreamTag->modeStreamTag_t::needsFree()) {
       free();
     }
